@@ -182,8 +182,8 @@ def run(ctx):
             kw = {}
             if i < len(B.SIBLING_VARIANTS):
                 kw = dict(n_slices=2, sibling=B.SIBLING_VARIANTS[i])
-            elif i < len(B.SIBLING_VARIANTS) + 3:
-                kw = dict(n_slices=3, force=[("nested",), ("semi", "late"), ("farspan",)][i - len(B.SIBLING_VARIANTS)])
+            elif i < len(B.SIBLING_VARIANTS) + 4:
+                kw = dict(n_slices=3, force=[("nested",), ("semi", "late"), ("farspan",), ("nfc",)][i - len(B.SIBLING_VARIANTS)])
             if i % 25 == 3:
                 kw = dict(size="big", n_slices=rng.choice([1, 2]))
             wt = B.gen_triangle(rng, **kw) if i % 40 != 7 else B.gen_calendar_triangle(rng)
